@@ -2,6 +2,7 @@ package main
 
 import (
 	"fmt"
+	"go/constant"
 	"go/token"
 	"go/types"
 
@@ -254,6 +255,19 @@ func checkC02(c *Ctx) {
 				c.bad("O2 delivery", key, in.Pos(), "the delivery is not restricted to the 'flag was set' outcome of the swap/CAS: a gauge that was not updated is delivered again", c.describe(in))
 				okOne = true
 				break
+			} else if miss := undeliveredExit(g, in, func(i ssa.Instruction) bool {
+				ci, isCall := i.(ssa.CallInstruction)
+				if !isCall {
+					return false
+				}
+				_, m := ifaceCall(ci)
+				return m != nil && (m == mPlain || m == mCached)
+			}); miss != nil {
+				// round 11: once the flag is consumed the value must go out on every path (no "unchanged value"
+				// suppression between the swap and the delivery: the consumed update would be lost)
+				c.bad("O2 delivery", key, miss.Pos(), "after the flag was consumed a path returns without delivering: the update that set the flag is lost (the reporter keeps an older value)", c.describe(miss))
+				okOne = true
+				break
 			}
 			okOne = true
 			c.ok("O2 delivery", key, in.Pos(), "flag consumed by one RMW before the load; delivery on the flag-was-set edge")
@@ -300,4 +314,77 @@ func checkC02(c *Ctx) {
 	c.checkReportBeforeClear("O6 flag-before-report", "O6 report-before-clear")
 	c.checkSliceSibling("O6 slice-sibling", "gauges", "gaugesSlice")
 	c.checkDoubleChecked("O6 double-checked", c.newLockEngine())
+}
+
+// undeliveredExit: iff is the test of the consumed flag and in a delivery dominated by one of its edges. Returns
+// the terminator of a block that leaves the function on that edge without passing any delivery (nil if every
+// path from the edge to an exit passes one).
+func undeliveredExit(iff *ssa.If, in ssa.Instruction, isDelivery func(ssa.Instruction) bool) ssa.Instruction {
+	b := iff.Block()
+	var start *ssa.BasicBlock
+	for idx := 0; idx < 2; idx++ {
+		if edgeDominates(b, idx, in.Block()) {
+			start = b.Succs[idx]
+		}
+	}
+	if start == nil {
+		return nil
+	}
+	// the walk threads jumps through phis of constants: arriving from a predecessor for which the branch
+	// condition is a known boolean, only the matching successor is followed (a helper returning (v, ok) that
+	// is called in place leaves exactly this shape)
+	type visit struct{ x, from *ssa.BasicBlock }
+	seen := map[visit]bool{}
+	var walk func(x, from *ssa.BasicBlock) ssa.Instruction
+	walk = func(x, from *ssa.BasicBlock) ssa.Instruction {
+		if seen[visit{x, from}] {
+			return nil
+		}
+		seen[visit{x, from}] = true
+		for _, i := range x.Instrs {
+			if isDelivery(i) {
+				return nil
+			}
+		}
+		if len(x.Instrs) == 0 {
+			return nil
+		}
+		last := x.Instrs[len(x.Instrs)-1]
+		if r, isRet := last.(*ssa.Return); isRet {
+			return r
+		}
+		succs := x.Succs
+		if br, isIf := last.(*ssa.If); isIf {
+			cond, neg := br.Cond, false
+			for {
+				u, isUn := cond.(*ssa.UnOp)
+				if !isUn || u.Op != token.NOT {
+					break
+				}
+				cond, neg = u.X, !neg
+			}
+			if phi, isPhi := cond.(*ssa.Phi); isPhi && phi.Block() == x {
+				for k, p := range x.Preds {
+					if p != from || k >= len(phi.Edges) {
+						continue
+					}
+					if cst, isConst := phi.Edges[k].(*ssa.Const); isConst && cst.Value != nil && cst.Value.Kind() == constant.Bool {
+						v := constant.BoolVal(cst.Value) != neg
+						if v {
+							succs = x.Succs[:1]
+						} else {
+							succs = x.Succs[1:2]
+						}
+					}
+				}
+			}
+		}
+		for _, s := range succs {
+			if m := walk(s, x); m != nil {
+				return m
+			}
+		}
+		return nil
+	}
+	return walk(start, b)
 }
